@@ -11,6 +11,8 @@ import CallbagModel.Inv.ConcatN
 import CallbagModel.Closed.Prog3
 import CallbagModel.Closed.LinearInf
 import CallbagModel.Closed.LinearCost
+import CallbagModel.Closed.LinearInfCost
+import CallbagModel.Closed.Prog3Cost
 /-!
 # C06 — iterable programming: pull pipelines compute the corresponding list function
 
@@ -315,5 +317,23 @@ theorem C06_linear_cost_take_gen (xs : List Int) (pre post : List Closed.Stg) (n
     ∀ s, SReach (Closed.thenM (Closed.chainM xs (pre ++ .take n :: post)) Closed.forEachM).M s →
       (Closed.thenM (Closed.chainM xs (pre ++ .take n :: post)) Closed.forEachM).nexts s.st ≤ (sem (Closed.chainPipe xs pre) (some n)).2 :=
   Closed.linear_cost_take_gen xs pre post n hpos
+
+/-- over an ARBITRARY (possibly infinite) iterator: below a `take n` whose upstream stages never drop the iterator is advanced at most
+`n` times — with `C06_take_over_unbounded_stops`: take over an unbounded iterator stops, having advanced it at most `n` times -/
+theorem C06_unbounded_cost_take {ι : Type} (next : ι → Option (Int × ι)) (it0 : ι) (pre post : List Closed.Stg) (n : Nat)
+    (hpre : ∀ s ∈ pre, s.keeps) :
+    ∀ s, SReach (Closed.thenM (Closed.chainIM next it0 (pre ++ .take n :: post)) Closed.forEachM).M s →
+      (Closed.thenM (Closed.chainIM next it0 (pre ++ .take n :: post)) Closed.forEachM).nexts s.st ≤ n :=
+  Closed.linearInf_cost_take next it0 pre post n hpre
+
+/-- the cost of programs with `concat!` and `flatten(map(…))`, when no `take` sits over a join (`Prog3.eager`): the SUM of the advances of
+all member / inner sources is at most `(sem p none).2` everywhere and equal to it at return.  For a `take` over a join the natural demand
+rule is FALSE against lazy sinks (again `concat`'s sticky `got_pull`: execution in the header of `Closed/Prog3Cost.lean`); closed with
+`for_each` it is covered by the comparison only. -/
+theorem C06_program_cost (p : Closed.Prog3) (hok : p.ok) (he : p.eager) :
+    ∀ s, SReach (Closed.thenM p.toM Closed.forEachM).M s →
+      (Closed.thenM p.toM Closed.forEachM).nexts s.st ≤ (sem p.toPipe none).2 ∧
+      (s.stack = [] → s.tr ≠ [] → (Closed.thenM p.toM Closed.forEachM).nexts s.st = (sem p.toPipe none).2) :=
+  Closed.prog3_cost p hok he
 
 end Cb.Thm
